@@ -338,6 +338,13 @@ def run_impl(mode, case, scratch, slots=1, tag="x", timeout=40.0):
             app.state_backend.wait_for_all_async_operations()
         except Exception:  # noqa: BLE001
             pass
+        if obs["out"] == ["hang"] or obs.get("unfinished"):
+            # threads still polling a never-final invocation would spin for the rest of the process' life:
+            # purging the app makes their next status lookup fail, which ends them
+            try:
+                app.purge()
+            except Exception:  # noqa: BLE001
+                pass
     obs["log"] = [dict(e) for e in reg.log]
     obs["wall"] = round(time.time() - t0, 3)
     T.REG = None
@@ -563,7 +570,7 @@ def main(ctx: Ctx) -> int:
         ctx.log(f"{len(cases)} cases, {len(jobs)} executions on the implementation ({NWORKERS} worker processes)")
         results: dict = {}
         fctx = mp.get_context("fork")
-        with fctx.Pool(NWORKERS, initializer=_init_worker, initargs=(fctx.Value("i", 0),)) as pool:
+        with fctx.Pool(NWORKERS, initializer=_init_worker, initargs=(fctx.Value("i", 0),), maxtasksperchild=60) as pool:
             for idx, mode, slots, obs in pool.imap_unordered(_work, jobs, chunksize=2):
                 results[(idx, mode, slots)] = obs
         errs = [(k, o) for k, o in results.items() if "harness_error" in o]
